@@ -421,6 +421,17 @@ class PyMarkdownLint:
         scan_result = ApplicationResult.SUCCESS
         try:
             args = self.__initialize_subsystems(direct_args)
+            # pylint: disable=import-outside-toplevel
+            from pymarkdown.general import verif_probe
+
+            # pylint: enable=import-outside-toplevel
+            verif_probe.emit(
+                "run_begin",
+                command=str(args.primary_subparser),
+                continue_on_error=bool(getattr(args, "continue_on_error", False)),
+                scheme_argument=getattr(args, "return_code_scheme", None),
+                list_files=bool(getattr(args, "list_files", False)),
+            )
 
             (
                 use_standard_in,
